@@ -1,4 +1,5 @@
 import Dawgs.Props.C01
+import Dawgs.Props.C02
 import Dawgs.Props.C03
 import Dawgs.Props.C09
 import Dawgs.Props.C16
